@@ -776,6 +776,104 @@ static int real_main(int argc, char** argv) {
       one_load(big, n);
     }
     free(big);
+  } else if (!strcmp(mode, "wide")) {
+    /* flat containers and chunked strings with member counts around every size an implementation could key on */
+    int all = a + 1 < argc && atoi(argv[a + 1]) > 0;
+    /* (the step-by-step judge is quadratic in the member count: the full list of counts goes through "widesum" below) */
+    static const size_t counts_q[] = {257, 1025}, counts_t[] = {255, 256, 257, 1023, 1025, 4097};
+    const size_t* counts = all ? counts_t : counts_q;
+    size_t ncounts = all ? 6 : 2;
+    unsigned char* big = malloc(3 * 65537 + 64);
+    for (size_t ci = 0; ci < ncounts; ci++)
+      for (int kind = 0; kind < 6; kind++) {
+        size_t c = counts[ci], n = 0;
+        switch (kind) {
+          case 0: big[n++] = 0x9f; memset(big + n, 0x01, c); n += c; big[n++] = 0xff; break;
+          case 1: big[n++] = 0xbf; for (size_t i = 0; i < c; i++) { big[n++] = 0x01; big[n++] = 0xf6; } big[n++] = 0xff; break;
+          case 2: big[n++] = 0x5f; for (size_t i = 0; i < c; i++) { big[n++] = 0x41; big[n++] = (unsigned char)i; } big[n++] = 0xff; break;
+          case 3: big[n++] = 0x7f; for (size_t i = 0; i < c; i++) { big[n++] = 0x61; big[n++] = 'a'; } big[n++] = 0xff; break;
+          case 4: big[n++] = c < 65536 ? 0x99 : 0x9a; if (c >= 65536) { big[n++] = 0; big[n++] = (unsigned char)(c >> 16); } big[n++] = (unsigned char)(c >> 8); big[n++] = (unsigned char)c;
+                  memset(big + n, 0x20, c); n += c; break;
+          default: big[n++] = c < 65536 ? 0xb9 : 0xba; if (c >= 65536) { big[n++] = 0; big[n++] = (unsigned char)(c >> 16); } big[n++] = (unsigned char)(c >> 8); big[n++] = (unsigned char)c;
+                  for (size_t i = 0; i < c; i++) { big[n++] = 0x01; big[n++] = 0xf5; } break;
+        }
+        one_load(big, n);
+      }
+    free(big);
+  } else if (!strcmp(mode, "widesum")) {
+    /* the same shapes with member counts up to 2^16+1 (thorough: 2^20+1), one summary line per load: accepted, bytes read, member count,
+     * the first and last members, everything released. Judged by Trace_Wide. */
+    int all = a + 1 < argc && atoi(argv[a + 1]) > 0;
+    static const size_t counts_q[] = {23, 24, 255, 256, 257, 511, 512, 513, 1023, 1024, 1025, 2047, 2048, 2049, 4095, 4096, 4097, 6143, 6144, 6145, 8191, 8192, 8193, 12289, 16385, 32769, 65535, 65536, 65537};
+    static const size_t counts_x[] = {98305, 131071, 131072, 131073, 262145, 524289, 1048575, 1048576, 1048577};
+    size_t maxc = all ? 1048577 : 65537;
+    unsigned char* big = malloc(3 * maxc + 64);
+    for (size_t ci = 0; ci < sizeof counts_q / sizeof *counts_q + (all ? sizeof counts_x / sizeof *counts_x : 0); ci++)
+      for (int kind = 0; kind < 6; kind++) {
+        size_t c = ci < sizeof counts_q / sizeof *counts_q ? counts_q[ci] : counts_x[ci - sizeof counts_q / sizeof *counts_q], n = 0;
+        switch (kind) {
+          case 0: big[n++] = 0x9f; for (size_t i = 0; i < c; i++) big[n++] = (unsigned char)(i % 24); big[n++] = 0xff; break;
+          case 1: big[n++] = 0xbf; for (size_t i = 0; i < c; i++) { big[n++] = (unsigned char)(i % 24); big[n++] = 0xf6; } big[n++] = 0xff; break;
+          case 2: big[n++] = 0x5f; for (size_t i = 0; i < c; i++) { big[n++] = 0x41; big[n++] = (unsigned char)(i % 24); } big[n++] = 0xff; break;
+          case 3: big[n++] = 0x7f; for (size_t i = 0; i < c; i++) { big[n++] = 0x61; big[n++] = (unsigned char)('a' + i % 24); } big[n++] = 0xff; break;
+          case 4: if (c < 24) big[n++] = (unsigned char)(0x80 + c); else if (c < 256) { big[n++] = 0x98; big[n++] = (unsigned char)c; } else if (c < 65536) { big[n++] = 0x99; big[n++] = (unsigned char)(c >> 8); big[n++] = (unsigned char)c; }
+                  else { big[n++] = 0x9a; big[n++] = 0; big[n++] = (unsigned char)(c >> 16); big[n++] = (unsigned char)(c >> 8); big[n++] = (unsigned char)c; }
+                  for (size_t i = 0; i < c; i++) big[n++] = (unsigned char)(i % 24); break;
+          default: if (c < 24) big[n++] = (unsigned char)(0xa0 + c); else if (c < 256) { big[n++] = 0xb8; big[n++] = (unsigned char)c; } else if (c < 65536) { big[n++] = 0xb9; big[n++] = (unsigned char)(c >> 8); big[n++] = (unsigned char)c; }
+                  else { big[n++] = 0xba; big[n++] = 0; big[n++] = (unsigned char)(c >> 16); big[n++] = (unsigned char)(c >> 8); big[n++] = (unsigned char)c; }
+                  for (size_t i = 0; i < c; i++) { big[n++] = (unsigned char)(i % 24); big[n++] = 0xf5; } break;
+        }
+        unsigned char* blk;
+        unsigned char* src = vh_exact_rot(n, &blk);
+        memcpy(src, big, n);
+        struct cbor_load_result res;
+        memset(&res, 0xAB, sizeof res);
+        long live0 = va.live;
+        cur_in = big; cur_len = n < 64 ? n : 64;
+        input_index++;
+        watchdog(1);
+        cbor_verif_load_hook = NULL;
+        cbor_item_t* it = cbor_load(src, n, &res);
+        watchdog(0);
+        memset(src, 0xEE, n);
+        free(blk);
+        fprintf(vh_out, "{\"e\":\"wide\",\"kind\":%d,\"count\":%zu,\"len\":%zu,\"ok\":%s,\"code\":\"%s\",\"read\":%zu", kind, c, n, it ? "true" : "false", code_name(res.error.code), it ? res.read : 0);
+        size_t got = 0;
+        long wrong = 0;
+        if (it) {
+          /* member i must be the i-th one written (value i mod 24): order and content, without logging 10^6 members */
+          if ((kind == 0 || kind == 4) && cbor_isa_array(it)) { got = cbor_array_size(it); for (size_t i = 0; i < got; i++) { cbor_item_t* m = cbor_array_handle(it)[i]; if (!cbor_isa_uint(m) || cbor_get_uint8(m) != i % 24 || cbor_refcount(m) != 1) wrong++; } }
+          else if ((kind == 1 || kind == 5) && cbor_isa_map(it)) { got = cbor_map_size(it); for (size_t i = 0; i < got; i++) { struct cbor_pair* p = &cbor_map_handle(it)[i]; if (!cbor_isa_uint(p->key) || cbor_get_uint8(p->key) != i % 24 || !cbor_isa_float_ctrl(p->value) || cbor_refcount(p->key) != 1) wrong++; } }
+          else if (kind == 2 && cbor_isa_bytestring(it) && cbor_bytestring_is_indefinite(it)) { got = cbor_bytestring_chunk_count(it); for (size_t i = 0; i < got; i++) { cbor_item_t* m = cbor_bytestring_chunks_handle(it)[i]; if (cbor_bytestring_length(m) != 1 || cbor_bytestring_handle(m)[0] != i % 24) wrong++; } }
+          else if (kind == 3 && cbor_isa_string(it) && cbor_string_is_indefinite(it)) { got = cbor_string_chunk_count(it); for (size_t i = 0; i < got; i++) { cbor_item_t* m = cbor_string_chunks_handle(it)[i]; if (cbor_string_length(m) != 1 || cbor_string_handle(m)[0] != 'a' + i % 24) wrong++; } }
+          else wrong = -1;
+          int def = kind >= 4;
+          if ((kind == 0 || kind == 4) && cbor_isa_array(it) && cbor_array_is_definite(it) != def) wrong++;
+          if ((kind == 1 || kind == 5) && cbor_isa_map(it) && cbor_map_is_definite(it) != def) wrong++;
+          cbor_decref(&it);
+        }
+        fprintf(vh_out, ",\"got\":%zu,\"wrong\":%ld,\"live\":%ld}\n", got, wrong, va.live - live0);
+      }
+    free(big);
+  } else if (!strcmp(mode, "texts")) {
+    /* text strings (definite and as chunks) whose ASCII runs have every length 0..300, alone and behind / between multi-byte scalars:
+     * block-wise validators have their edges at multiples of 4, 8, 16, 32, 64 */
+    static const char* pre[] = {"", "\xc3\xa9", "\xe2\x82\xac", "\xf0\x9f\x98\x80", "\xff"};
+    unsigned char* t = malloc(1024);
+    for (size_t run = 0; run <= 300; run++)
+      for (int pi = 0; pi < 5; pi++)
+        for (int shape = 0; shape < 3; shape++) {
+          if (shape && run % 7 != 3 && run % 32 > 1) continue;   /* the chunked and sandwiched shapes for a subset */
+          size_t pl = strlen(pre[pi]), len = pl + run + (shape == 2 ? pl : 0), n = 0;
+          if (shape == 1) t[n++] = 0x7f;
+          if (len < 24) t[n++] = (unsigned char)(0x60 + len); else if (len < 256) { t[n++] = 0x78; t[n++] = (unsigned char)len; } else { t[n++] = 0x79; t[n++] = (unsigned char)(len >> 8); t[n++] = (unsigned char)len; }
+          memcpy(t + n, pre[pi], pl); n += pl;
+          for (size_t i = 0; i < run; i++) t[n++] = (unsigned char)('a' + i % 26);
+          if (shape == 2) { memcpy(t + n, pre[pi], pl); n += pl; }
+          if (shape == 1) t[n++] = 0xff;
+          one_load(t, n);
+        }
+    free(t);
   } else if (!strcmp(mode, "deep")) {
     /* every opener kind nested N deep (far beyond any nesting limit), unclosed and closed: the decoder must refuse with
      * an error code, and must do so without exhausting the native stack */
